@@ -7,16 +7,18 @@ SPEC = dict(
     harnesses=[dict(name="sm", driver="qxdriver_c09")],
     exhaustive=True,
     rule="histories over {send stanza (write ok / write fails), send nonza, sendIq (tracked request), <a h/> with h = last number used (exact), one "
-         "below, one beyond, <r/>, receive message/presence/iq/nonza, IQ result/error for an outstanding request, connection lost, reconnect "
+         "below, one beyond, <r/>, receive message/presence/iq/nonza, IQ result/error for an outstanding request, IQ requests that make the client send by itself (unhandled get -> "
+         "feature-not-implemented from QXmppOutgoingClient::handleStanza; version/time/disco requests answered by the managers; the initial "
+         "presence QXmppClient sends when a session opens after SASL2), connection lost, reconnect "
          "where the scripted server refuses <resume/> (plain <failed/> or <failed h=exact|one below/>) and accepts <enable/>, accepts "
          "<resume/> with h exact/one below/beyond, offers no stream management, refuses both, resetCache; every report-firing operation "
          "(<a/>, <resumed/>, <enabled/> after <failed h/>, resetCache) also with re-entrant delivery reports (the QXmppTask continuation of "
          "every reported packet sends one new stanza from inside the report); every reconnect both through the classic post-authentication "
          "negotiation (<resume/>, bind, <enable/> as own elements) and through SASL2/Bind2 (<resume/> inside <authenticate/>, <resumed/>/"
-         "<failed/> and <bound><enabled/></bound> inside <success/>)}, applied to a real QXmppOutgoingClient (real StreamAckManager, "
+         "<failed/> and <bound><enabled/></bound> inside <success/>)}, applied to a real QXmppClient (version, entity-time and discovery managers) and its real QXmppOutgoingClient (StreamAckManager, "
          "OutgoingIqManager, C2sStreamManager, Sasl2Manager, BindManager, XmppSocket; only QSslSocket::writeData is captured; everything "
          "received goes through handlePacketReceived). Exhaustive blocks (both tiers): length 5 over 11 symbols, length 5 over the 10 "
-         "re-entrancy/<failed h/>/resetCache symbols, length 4 over the 11 SASL2 symbols, length 3 over all 33 symbols, every length-5 "
+         "re-entrancy/<failed h/>/resetCache symbols, length 5 over the 9 self-sent-traffic symbols, length 4 over the 11 SASL2 symbols, length 3 over all 33 symbols, every length-5 "
          "continuation (9 symbols) of a session holding two stored stanzas; thorough adds length 6 over 7 symbols and the length-5 / length-4 "
          "continuations of two more prefixes (total kept under 8M lines because the comparison holds all lines in memory); plus 4000 / 16000 "
          "seeded random histories of up to 60 symbols over the whole weighted symbol set including failed writes during every kind of "
@@ -27,7 +29,7 @@ SPEC = dict(
          "packet, exactly one after teardown, none lost in resetCache, acknowledged only if covered (by <a/>, <resumed/> or <failed h/>), "
          "covered => confirmed, resent set/order with newer traffic last, nothing written after its report, nothing covered by <failed h/> "
          "resent, stanzas sent from reports numbered, h of <a/>/<resume/> = stanzas received on the session (mod 2^32), an honest server's "
-         "count = the client's numbering. 2^32 wrap: both private counters of the real StreamAckManager are set to 4294967294 "
+         "count (every stanza written on the session) = the client's numbering read from the real m_lastOutgoingSequenceNumber. 2^32 wrap: both private counters of the real StreamAckManager are set to 4294967294 "
          "(explicit-instantiation access, no patch) and driven across the wrap; judged by the oracle only (the model's counters are "
          "unbounded). A history is non-trivial when it yields >= 2 distinct observations.",
     trusted_base=[
